@@ -104,6 +104,13 @@ func (r *InboundRequestSingleFlight) GetOrCreate(ctx *Context, response *GraphQL
 			if request.Err != nil {
 				return nil, request.Err
 			}
+			if request.Data == nil {
+				// The leader finished before it could see this follower (it checks
+				// HasFollowers before copying the data), so nothing was shared.
+				// Resolve independently; returning the request would make the caller
+				// act as a second leader and close Done twice.
+				return nil, nil
+			}
 			return request, nil
 		case <-ctx.ctx.Done():
 			return nil, ctx.ctx.Err()
